@@ -11,17 +11,22 @@ EXTENDS Integers, Sequences, FiniteSets, TLC
 
 CONSTANTS MaxTokens     \* issued tokens are 1..MaxTokens; MaxTokens+1 is a token that was never issued
 
-VARIABLES issued, revoked, nextTok, lastRes
-avars == <<issued, revoked, nextTok, lastRes>>
+VARIABLES issued, revoked, nextTok, lastRes,
+          gen        \* generation of the configured admin token: the operator may change http.auth_token and restart
+avars == <<issued, revoked, nextTok, lastRes, gen>>
 
-Admin   == 0
+Admin   == 0                 \* the admin token configured first
 Unknown == MaxTokens + 1
-Toks    == 0 .. Unknown
+Admin2  == MaxTokens + 2     \* the admin token configured after a rotation
+Prefix  == MaxTokens + 3     \* a proper prefix of the CURRENT admin token        (never a credential)
+Plus    == MaxTokens + 4     \* the CURRENT admin token with a character appended (never a credential)
+Toks    == 0 .. Plus
 
-Valid(t)   == t = Admin \/ (t \in issued /\ t \notin revoked)
-IsAdmin(t) == t = Admin
+CurAdmin   == IF gen = 0 THEN Admin ELSE Admin2
+IsAdmin(t) == t = CurAdmin
+Valid(t)   == IsAdmin(t) \/ (t \in issued /\ t \notin revoked)
 
-AInit == issued = {} /\ revoked = {} /\ nextTok = 1 /\ lastRes = [status |-> 0]
+AInit == issued = {} /\ revoked = {} /\ nextTok = 1 /\ lastRes = [status |-> 0] /\ gen = 0
 
 \* POST /access with credential `as`
 Create(as) ==
@@ -29,41 +34,46 @@ Create(as) ==
     THEN /\ nextTok <= MaxTokens
          /\ issued' = issued \cup {nextTok} /\ nextTok' = nextTok + 1
          /\ lastRes' = [status |-> 200, tok |-> nextTok]
-         /\ UNCHANGED revoked
-    ELSE /\ lastRes' = [status |-> 401] /\ UNCHANGED <<issued, revoked, nextTok>>
+         /\ UNCHANGED <<revoked, gen>>
+    ELSE /\ lastRes' = [status |-> 401] /\ UNCHANGED <<issued, revoked, nextTok, gen>>
 
 \* DELETE /access/:x with credential `as` (revoking an unknown, revoked or the admin token is accepted and changes nothing)
 Revoke(as, x) ==
   IF IsAdmin(as)
     THEN /\ revoked' = revoked \cup ({x} \cap issued)
-         /\ lastRes' = [status |-> 200] /\ UNCHANGED <<issued, nextTok>>
-    ELSE /\ lastRes' = [status |-> 401] /\ UNCHANGED <<issued, revoked, nextTok>>
+         /\ lastRes' = [status |-> 200] /\ UNCHANGED <<issued, nextTok, gen>>
+    ELSE /\ lastRes' = [status |-> 401] /\ UNCHANGED <<issued, revoked, nextTok, gen>>
 
 \* any authenticated route / the websocket connect handshake with token x
-AuthHTTP(x) == lastRes' = (IF Valid(x) THEN [status |-> 200, admin |-> IsAdmin(x)] ELSE [status |-> 401]) /\ UNCHANGED <<issued, revoked, nextTok>>
-AuthWS(x)   == lastRes' = [ws |-> Valid(x)] /\ UNCHANGED <<issued, revoked, nextTok>>
-RestartA    == lastRes' = [status |-> 0] /\ UNCHANGED <<issued, revoked, nextTok>>
+AuthHTTP(x) == lastRes' = (IF Valid(x) THEN [status |-> 200, admin |-> IsAdmin(x)] ELSE [status |-> 401]) /\ UNCHANGED <<issued, revoked, nextTok, gen>>
+AuthWS(x)   == lastRes' = [ws |-> Valid(x)] /\ UNCHANGED <<issued, revoked, nextTok, gen>>
+RestartA    == lastRes' = [status |-> 0] /\ UNCHANGED <<issued, revoked, nextTok, gen>>
+\* the operator configures another admin token and restarts on the same database: the former admin token is from now on
+\* a string that was never issued
+RotateA     == gen = 0 /\ gen' = 1 /\ lastRes' = [status |-> 0] /\ UNCHANGED <<issued, revoked, nextTok>>
 
 ANext == \/ \E as \in Toks : Create(as)
          \/ \E as \in Toks, x \in Toks : Revoke(as, x)
          \/ \E x \in Toks : AuthHTTP(x) \/ AuthWS(x)
-         \/ RestartA
+         \/ RestartA \/ RotateA
 ASpec == AInit /\ [][ANext]_avars
 
 \* C10
-AdminAlways          == Valid(Admin) /\ Admin \notin revoked
+AdminAlways          == Valid(CurAdmin) /\ CurAdmin \notin revoked
 RevokedNeverValid    == \A t \in revoked : ~Valid(t)
-NeverIssuedNotValid  == \A t \in Toks \ {Admin} : t \notin issued => ~Valid(t)
+NeverIssuedNotValid  == \A t \in Toks \ {CurAdmin} : t \notin issued => ~Valid(t)     \* incl. a former admin token, prefixes, extensions
 RevocationIsForEver  == [][\A t \in revoked : t \in revoked']_avars
 OthersUnaffected     == [][\A t \in Toks : (Valid(t) # Valid(t)') =>
                               \/ (t = nextTok /\ "tok" \in DOMAIN lastRes')                                \* just created
-                              \/ (t \in revoked' \ revoked)]_avars                                          \* just revoked
-RejectedChangesNothing == [][("status" \in DOMAIN lastRes' /\ lastRes'.status = 401) => <<issued, revoked, nextTok>>' = <<issued, revoked, nextTok>>]_avars
+                              \/ (t \in revoked' \ revoked)                                                \* just revoked
+                              \/ (gen' # gen /\ t \in {Admin, Admin2})]_avars                             \* admin token rotated
+RejectedChangesNothing == [][("status" \in DOMAIN lastRes' /\ lastRes'.status = 401) => <<issued, revoked, nextTok, gen>>' = <<issued, revoked, nextTok, gen>>]_avars
 
 -----------------------------------------------------------------------------
 \* C09: the middleware decision.  route classes x credential classes x configuration
 RouteClasses == {"ApiUser", "ApiAdmin", "Public"}
-CredClasses  == {"none", "empty", "wrongScheme", "extraParts", "unknown", "revoked", "user", "admin"}
+CredClasses  == {"none", "empty", "wrongScheme", "extraParts", "unknown", "revoked", "user", "admin",
+                 "adminPrefix", "adminPlus", "userPrefix", "bearerOnly"}
 CredValid(c) == c \in {"user", "admin"}
 \* [may the handler run, must the answer be 401]
 Decide(route, cred, useAuth) ==
